@@ -37,7 +37,7 @@ def run_harness(reqs, timeout=600):
 def run_driver(lines, timeout=600):
     """lines: list of request strings -> list of response strings."""
     data = '\n'.join(lines) + '\n'
-    p = subprocess.run(['bash', '-c', 'ulimit -s unlimited 2>/dev/null; exec "$0"', DRIVER], input=data.encode(), capture_output=True, timeout=timeout)
+    p = subprocess.run(["bash", "-c", "ulimit -s unlimited 2>/dev/null; exec \"$0\"", DRIVER], input=data.encode(), capture_output=True, timeout=timeout, env=dict(os.environ, OCAMLRUNPARAM="s=4M"))
     out = p.stdout.decode().splitlines()
     if len(out) != len(lines):
         raise RuntimeError('driver: %d responses for %d requests (rc=%s) stderr=%s' % (len(out), len(lines), p.returncode, p.stderr.decode()[-2000:]))
@@ -58,9 +58,7 @@ class Cfg:
                 "encrypt": self.encrypt, "key": b64(self.key) if self.key is not None else ""}
     def driver_line(self, re_table=None, enc_table=None):
         flags = ''.join('1' if x else '0' for x in (self.nums, self.bools, self.ips, self.nss))
-        eager = ','.join(hx(e) if e else '' for e in self.eager) if self.eager else '-'
-        if self.eager and any(not e for e in self.eager):
-            raise ValueError('empty eager path not representable')
+        eager = ','.join(hx(e) if e else '=' for e in self.eager) if self.eager else '-'
         if self.re:
             items = ['%s:%d' % (hx(n) if n else '', 1 if v else 0) for n, v in (re_table or {}).items()]
             re = ','.join(items) if items else '='
@@ -91,6 +89,13 @@ class Cfg:
 # ---- tables for the abstract components of the model (regexp, encryption) ----
 from vlib import jtree as _jt
 
+def _fix(s):
+    """what Go's decoder makes of a string holding lone surrogates: each becomes U+FFFD"""
+    try:
+        s.encode('utf-8'); return s
+    except UnicodeEncodeError:
+        return s.encode('utf-16', 'surrogatepass').decode('utf-16', 'replace')
+
 def all_names_and_strings(lines):
     """all object keys and all string leaves (also with one leading '$' removed) of the parseable lines"""
     names, strings = set(), set()
@@ -98,11 +103,11 @@ def all_names_and_strings(lines):
         k = _jt.kind(t)
         if k == 'obj':
             for key, v in t:
-                names.add(key); walk(v)
+                names.add(_fix(key)); walk(v)
         elif k == 'arr':
             for v in t: walk(v)
         elif k == 'str':
-            strings.add(t)
+            strings.add(_fix(t))
     for l in lines:
         t = _jt.parse(l)
         if t is not None: walk(t)
